@@ -118,6 +118,19 @@ class VCSStrategyGit(VCSStrategy):
         ]
         result = execute_command(command, _LOGGER, cwd=self.root)
         all_files = result.stdout.decode("utf-8").split("\0")
+        # With --directory, Git does not list ignored files that live inside
+        # of an untracked directory which also contains non-ignored files.
+        # List every ignored file individually as well.
+        command = [
+            str(self.EXE),
+            "ls-files",
+            "--exclude-standard",
+            "--ignored",
+            "--others",
+            "-z",
+        ]
+        result = execute_command(command, _LOGGER, cwd=self.root)
+        all_files += result.stdout.decode("utf-8").split("\0")
         return {Path(file_) for file_ in all_files}
 
     def _find_submodules(self) -> set[Path]:
